@@ -17,7 +17,8 @@ RULE = ('boards played to the end with faults injected at every position with fi
 REQUIRED_COUNTERS = {t: ['fault_out_of_turn', 'fault_out_of_turn_with_active_card', 'fault_card_of_other_hand',
                          'fault_card_already_played', 'dummy_never_set'] for t in ('quick', 'thorough')}
 SHARDS = {'quick': 1, 'thorough': 16}
-TRUSTED = []
+TRUSTED = ['the MiniPy semantics (Model/MiniPy.lean: value semantics, no aliasing) and the code translator (harness/translate_py.py), validated on every run by executing the translated program next to the real code (counters translated_*)',
+           ]
 ASSUMPTIONS = ['CPython set semantics (membership, remove)']
 
 
